@@ -280,8 +280,27 @@ func (c *genCtx) fnLit(d, np int) node {
 }
 
 // closureStmt: statements that create, store, pass and return closures
+// builtin function names that a parameter or a let variable may legally carry
+var shadowable = []string{"first", "second", "len", "list", "rest", "not", "cons", "append"}
+
 func (c *genCtx) closureStmt(d int) node {
-	switch c.r.intn(8) {
+	switch c.r.intn(10) {
+	case 8: // a parameter named like a builtin holds a function: in call position the parameter wins
+		p1, p2 := pick(c.r, shadowable), pick(c.r, shadowable)
+		if p1 == p2 {
+			return nBegin(nDefn("hof", strict(p1), "", c.tr(nCall(nSym(p1), c.arg().intExpr(d-1)))),
+				c.tr(nCall(nSym("hof"), c.fnLit(d, 1))))
+		}
+		return nBegin(nDefn("comp", strict(p1, p2), "", c.tr(nCall(nSym(p1), nCall(nSym(p2), c.arg().intExpr(d-1))))),
+			c.tr(nCall(nSym("comp"), c.fnLit(d, 1), c.fnLit(d, 1))))
+	case 9: // a let variable named like a builtin, used from the let body and from a closure made there
+		p := pick(c.r, shadowable)
+		if c.r.bool() {
+			return c.tr(nLet("let", []bind{{p, c.fnLit(d, 1)}}, nCall(nSym(p), c.arg().intExpr(d-1))))
+		}
+		name := pick(c.r, []string{"c1", "c2"})
+		c.clos = append(c.clos, fnInfo{name, 1, false})
+		return nDef(name, nLet("let", []bind{{p, c.fnLit(d, 1)}}, nFn(strict("q"), "", c.tr(nCall(nSym(p), nSym("q"))))))
 	case 6, 7: // three nested function levels: the innermost uses (and updates) a variable of the
 		// outermost, which is activated more than once
 		name := pick(c.r, []string{"o3", "o4"})
